@@ -24,6 +24,13 @@
   `evolve_logical_perf_spec`, `evolve_svd_perf_spec`); `HeraldsWF` derived from the declaration of the heralds
   (`heralds_wf_of_declared`).
 
+  Extensions (second half of the file): probability trimming at a non-zero precision (`Model/C04Trim.lean`: the
+  thresholds of `_preprocess_svd` and `list_tensor_product` as coded; exactness of `physical_perf`, bounds on
+  `logical_perf` and on every reported probability in terms of the trimmed mass); a long-lived `Simulator` /
+  `Processor` whose selection changes (`Model/C04Session.lean`: state machines with the concrete backend mask;
+  history-independence); superposed inputs through `_probs_svd_generic` (`Model/C04Generic.lean`: masked group
+  amplitudes and interference; equality with the specification conditioning of `probsSV` / `probsSVD`).
+
   NOT proved (validated by the correspondence only, or outside the model): see the list at the end of this file.
 -/
 import PercevalModel.Lemmas.C04
@@ -33,6 +40,8 @@ import PercevalModel.Lemmas.C04Evolve
 import PercevalModel.Lemmas.C04More
 import PercevalModel.Lemmas.C04Trim
 import PercevalModel.Lemmas.C04Session
+import PercevalModel.Lemmas.C04Generic
+import PercevalModel.Lemmas.C03Mass
 import PercevalModel.Props.C02
 
 namespace PM.C04
@@ -1330,11 +1339,144 @@ example : (procStep true idEng 2 (SM.exec (procStep true idEng 2) ProcSt.init st
   simp only [h1, ProcSt.cfg, h2, h3', h4, Option.getD_none]
   rfl
 
+/-! ### superposed (StateVector) inputs: `_probs_svd_generic` (`Model/C04Generic.lean`)
+
+`memberGen U c terms` is what the generic path computes for one superposition: per term and per annotation the group's
+amplitudes restricted to what the herald mask (budget `_best_n(n, n_own)`) keeps, recombined, multiplied by the
+coefficient, *added* over the terms (interference, `gatherAmps`), squared.  `probsSvdGen` wraps it in the bookkeeping
+of `probs_svd`.  Specification: `SimSpec.probsSV` / `probsSVD` and their conditioning. -/
+
+/-- **mask_invariance_superposed.**  Conditioned on the heralds, the distribution computed from the masked group
+amplitudes — interference between the terms included — is, as a list, the specification's distribution of the
+superposition.  Hypotheses: well-formed heralds; every term holds the same number of photons in `m`-mode groups
+(`_preprocess_svd` splits by photon number). -/
+theorem mask_invariance_superposed {m : ℕ} (U : Matrix (Fin m) (Fin m) GQ) (c : Cfg) (hcm : c.m = m)
+    (wf : HeraldsWF c.m c.heralds) (terms : List Term) (ok : SVOK m terms) :
+    restrict (heraldsOk c.heralds) (memberGen U c terms) = restrict (heraldsOk c.heralds) (probsSV U terms) :=
+  memberGen_heralds_invariance U c hcm wf terms ok
+
+/-- restricting the groups' outputs to the mask and letting the terms interfere commute -/
+theorem mask_commutes_with_interference {m : ℕ} (U : Matrix (Fin m) (Fin m) GQ) (c : Cfg) (terms : List Term) :
+    svAmpsMasked U c terms = (svAmps U terms).filter fun p => keyOk c (svN terms) p.1 :=
+  svAmpsMasked_eq_filter U c terms
+
+/-- the hypotheses on a mixture of superpositions -/
+structure GenOK {m : ℕ} (U : Matrix (Fin m) (Fin m) GQ) (members : List GMember) : Prop where
+  sv : ∀ g ∈ members, SVOK m g.terms
+  massOne : ∀ g ∈ members, mass (probsSV U g.terms) = 1
+  wsum : (members.map (·.w)).sum = 1
+  wpos : ∀ g ∈ members, 0 ≤ g.w
+
+theorem genOK_am {m : ℕ} (U : Matrix (Fin m) (Fin m) GQ) (c : Cfg) (hcm : c.m = m) (wf : HeraldsWF c.m c.heralds)
+    (members : List GMember) (ok : GenOK U members) : AM.OK c (members.map (toAM U c)) := by
+  refine ⟨?_, ?_, ?_, ?_, ?_, ?_⟩
+  · intro a ha
+    obtain ⟨g, hg, rfl⟩ := List.mem_map.1 ha
+    exact memberGen_heralds_invariance U c hcm wf g.terms (ok.sv g hg)
+  · intro a ha
+    obtain ⟨g, hg, rfl⟩ := List.mem_map.1 ha
+    exact probsSV_sums U g.terms (ok.sv g hg)
+  · intro a ha
+    obtain ⟨g, hg, rfl⟩ := List.mem_map.1 ha
+    exact ok.massOne g hg
+  · intro a ha
+    obtain ⟨g, _, rfl⟩ := List.mem_map.1 ha
+    exact NN_memberGen U c g.terms
+  · rw [List.map_map]
+    exact ok.wsum
+  · intro a ha
+    obtain ⟨g, hg, rfl⟩ := List.mem_map.1 ha
+    exact ok.wpos g hg
+
+theorem fullMix_eq_probsSVD {m : ℕ} (U : Matrix (Fin m) (Fin m) GQ) (c : Cfg) (members : List GMember) :
+    AM.fullMix (members.map (toAM U c)) = probsSVD U (members.map fun g => (g.w, g.terms)) := by
+  simp [AM.fullMix, probsSVD, List.map_map, Function.comp_def, toAM]
+
+/-- **condition_spec_superposed.**  `probs_svd` on a mixture of superpositions (generic path: masked group
+amplitudes, interference, photon filter on the inputs, performance bookkeeping, `post_select_distribution`) returns the
+specification's physical and logical performance and — whenever something is retained — the conditioned distribution
+of `probsSVD`, as a list. -/
+theorem condition_spec_superposed {m : ℕ} (U : Matrix (Fin m) (Fin m) GQ) (c : Cfg) (hcm : c.m = m)
+    (wf : HeraldsWF c.m c.heralds) (members : List GMember) (ok : GenOK U members) :
+    (probsSvdGen U c members).phys = physPerf (cond c) (probsSVD U (members.map fun g => (g.w, g.terms))) ∧
+    (probsSvdGen U c members).logical = logicalPerf (cond c) (probsSVD U (members.map fun g => (g.w, g.terms))) ∧
+    (mass (retained (cond c) (probsSVD U (members.map fun g => (g.w, g.terms)))) ≠ 0 →
+      (probsSvdGen U c members).results =
+        conditioned (cond c) (probsSVD U (members.map fun g => (g.w, g.terms)))) := by
+  rw [← fullMix_eq_probsSVD U c members]
+  exact AM.spec c _ (genOK_am U c hcm wf members ok)
+
+/-- physical × logical performance of the generic path = total retained probability -/
+theorem perf_product_superposed {m : ℕ} (U : Matrix (Fin m) (Fin m) GQ) (c : Cfg) (hcm : c.m = m)
+    (wf : HeraldsWF c.m c.heralds) (members : List GMember) (ok : GenOK U members)
+    (hphys : (probsSvdGen U c members).phys ≠ 0) :
+    (probsSvdGen U c members).phys * (probsSvdGen U c members).logical =
+      mass (retained (cond c) (probsSVD U (members.map fun g => (g.w, g.terms)))) := by
+  obtain ⟨h1, h2, _⟩ := condition_spec_superposed U c hcm wf members ok
+  rw [h2]
+  rw [h1] at hphys ⊢
+  exact SimSpec.perf_product _ _ hphys
+
+/-- **condition_spec_superposed_unitary.**  For a unitary circuit the unit mass of every member's distribution is a
+theorem (C03: `probsSV_mass_one_aux`, Parseval for permanents with interference); what is left are hypotheses on the
+data: same photon number in `m`-mode groups, pairwise distinct basis states and a non-zero vector per member,
+non-negative weights of total 1. -/
+theorem condition_spec_superposed_unitary {m : ℕ} (U : Matrix (Fin m) (Fin m) GQ) (hU : IsUnitary U) (c : Cfg)
+    (hcm : c.m = m) (wf : HeraldsWF c.m c.heralds) (members : List GMember)
+    (hsv : ∀ g ∈ members, SVOK m g.terms) (hnd : ∀ g ∈ members, (g.terms.map (·.groups)).Nodup)
+    (hnz : ∀ g ∈ members, svNorm2 g.terms ≠ 0)
+    (hw : (members.map (·.w)).sum = 1) (hpos : ∀ g ∈ members, 0 ≤ g.w) :
+    (probsSvdGen U c members).phys = physPerf (cond c) (probsSVD U (members.map fun g => (g.w, g.terms))) ∧
+    (probsSvdGen U c members).logical = logicalPerf (cond c) (probsSVD U (members.map fun g => (g.w, g.terms))) ∧
+    (mass (retained (cond c) (probsSVD U (members.map fun g => (g.w, g.terms)))) ≠ 0 →
+      (probsSvdGen U c members).results =
+        conditioned (cond c) (probsSVD U (members.map fun g => (g.w, g.terms)))) :=
+  condition_spec_superposed U c hcm wf members
+    ⟨hsv, fun g hg => PM.C03.probsSV_mass_one_aux U hU.2 g.terms (hsv g hg).len (hnd g hg) (hnz g hg), hw, hpos⟩
+
+/-! non-vacuity: the mixing unitary `PM.C02.exU`, mode 1 heralded on 0 photons (`uCfg`), one member: the
+superposition `|1,0> + |0,1>` of one photon (the two terms interfere on both outputs) -/
+
+def gTerms : List Term := [⟨1, [[1, 0]]⟩, ⟨1, [[0, 1]]⟩]
+
+theorem gSV : SVOK 2 gTerms := by
+  constructor
+  · intro t ht s hs
+    simp only [gTerms, List.mem_cons, List.not_mem_nil, or_false] at ht
+    rcases ht with rfl | rfl <;>
+    · simp only [List.mem_cons, List.not_mem_nil, or_false] at hs
+      subst hs; rfl
+  · intro t ht
+    simp only [gTerms, List.mem_cons, List.not_mem_nil, or_false] at ht
+    rcases ht with rfl | rfl <;> rfl
+
+example : restrict (heraldsOk uCfg.heralds) (memberGen PM.C02.exU uCfg gTerms) =
+    restrict (heraldsOk uCfg.heralds) (probsSV PM.C02.exU gTerms) :=
+  mask_invariance_superposed PM.C02.exU uCfg rfl uWF gTerms gSV
+
+example : (probsSvdGen PM.C02.exU uCfg [⟨1, gTerms⟩]).phys =
+      physPerf (cond uCfg) (probsSVD PM.C02.exU [(1, gTerms)]) ∧
+    (probsSvdGen PM.C02.exU uCfg [⟨1, gTerms⟩]).logical =
+      logicalPerf (cond uCfg) (probsSVD PM.C02.exU [(1, gTerms)]) :=
+  let h := condition_spec_superposed_unitary PM.C02.exU exU_isUnitary uCfg rfl uWF [⟨1, gTerms⟩]
+    (by intro g hg; simp only [List.mem_singleton] at hg; subst hg; exact gSV)
+    (by intro g hg; simp only [List.mem_singleton] at hg; subst hg; decide)
+    (by intro g hg; simp only [List.mem_singleton] at hg; subst hg
+        exact PM.C03.svNorm2_ne_zero _ ⟨⟨1, [[1, 0]]⟩, by simp [gTerms], by decide⟩)
+    (by simp) (by intro g hg; simp only [List.mem_singleton] at hg; subst hg; norm_num)
+  ⟨h.1, h.2.1⟩
+
 /-! ### what is still NOT a theorem
 
-* the probability-trimming thresholds of `_preprocess_svd` / `list_tensor_product` (the check runs at precision 0);
-* the superposed-input path `_probs_svd_generic` and `evolve` of a genuine superposition (interference between the
-  terms): compared with the specification by the correspondence only;
+* probability trimming: the fast path without detectors / with PNR detectors is modelled and bounded above
+  (`probsSvdθ`, `logical_perf_trim_bound`, `results_trim_bound`, `physical_perf_trim_exact`); NOT modelled: the
+  per-state `list_tensor_product` threshold of `simulate_detectors` (layouts containing a non-PNR detector), the
+  amplitude threshold of `_merge_sv` on the superposed path, and `min_p` acting on the engine's own output — those
+  paths are driven at precision 0 only.  No a-priori bound of the trimmed mass in terms of the precision is proved
+  (the trimmed mass is computed exactly per case by the driver; the harness's crude a-priori bound is a test device);
+* the superposed-input path is modelled and proved for members whose terms hold one photon number
+  (`condition_spec_superposed`); `_split_by_photon_count` (C03's `splitByN`) in front of it, superposed inputs combined
+  with detectors, and `evolve` of a genuine superposition are compared by the correspondence only / not at all;
 * the *distribution* returned by `evolve` after discarding heralded modes that hold distinguishable photons
   (`post_select_statevector` adds amplitudes of components that differ only by the tags of the discarded photons):
   only its logical performance is modelled and proved (`evolve_logical_perf_spec`), and `evolve_mask_invariance`
@@ -1345,6 +1487,10 @@ example : (procStep true idEng 2 (SM.exec (procStep true idEng 2) ProcSt.init st
   hypothesis `KernsOK` on the tables; for `Detector.pnr/threshold` it is proved (`kernsOK_builtin`);
 * the degenerate logical performance of the detector path (`logical_perf_nonpnr_detectors_full`: the code reports
   1 where the conditional probability is undefined) is *characterised*, not repaired;
-* history-independence of a reused simulator object (the model is a function of one request). -/
+* history-independence is proved for *selection* changes (heralds, post-selection, filter, keep_heralds, detectors)
+  of a reused `Simulator` (`probs_svd`, fast path) and `Processor` (`probs`) on a fixed circuit; `evolve` /
+  `evolve_svd` / the generic path's `_evolve` cache on a reused object, and circuit / input / noise / precision changes
+  are C05's machines (abstract identifiers), not re-proved here; `check_heralds_detectors`' early exit is not in the
+  session model (not generated). -/
 
 end PM.C04
